@@ -248,7 +248,9 @@ func TestRetrievalReplies(t *testing.T) {
 						}
 						req := pbench.Frame(&retrievalpb.RequestChunk{TargetAddr: remote.Bytes(), RootAddr: root.Bytes(), ChunkAddr: w.addr})
 						st := pbench.NewStream(req)
-						pi = pbench.Guard(func() { _ = hdl(ctx, p2p.Peer{Address: requester, Mode: aurora.NewModel().SetMode(aurora.FullNode)}, st) })
+						pi = pbench.Guard(func() {
+							_ = hdl(ctx, p2p.Peer{Address: requester, Mode: aurora.NewModel().SetMode(aurora.FullNode)}, st)
+						})
 						// what the requester was handed
 						for _, fr := range frames(st.Written()) {
 							var d retrievalpb.Delivery
@@ -269,7 +271,10 @@ func TestRetrievalReplies(t *testing.T) {
 						if pi.Harness {
 							t.Fatalf("harness fault: %s at %s", pi.Value, pi.Site)
 						}
-						run.Stat("panics_seen_not_judged_here(C37)/"+pi.Site, 1); if os.Getenv("C06_DEBUG") != "" { fmt.Fprintln(os.Stderr, "PANIC", c.ID(), pi.Value, pi.Stack[:5]) }
+						run.Stat("panics_seen_not_judged_here(C37)/"+pi.Site, 1)
+						if os.Getenv("C06_DEBUG") != "" {
+							fmt.Fprintln(os.Stderr, "PANIC", c.ID(), pi.Value, pi.Stack[:5])
+						}
 					}
 					checkPuts(run, c, "retrieval", n.store, v.class)
 					if accepted {
@@ -482,6 +487,21 @@ func pyramids(rng *rand.Rand, h honest) []pyr {
 	return out
 }
 
+// preload puts some honest chunks of the file into the store before the hostile pyramid
+// arrives: the node may already hold part of a file (fetched through another manifest, a
+// partial earlier download ...) and must not trust an entry just because it has that address.
+func preload(rng *rand.Rand, st *pbench.Store, h honest, mode string) {
+	for k, v := range h.pyramid {
+		if mode == "all" || (mode == "some" && rng.Intn(2) == 0) {
+			if a, err := hex.DecodeString(k); err == nil {
+				st.Seed(a, v)
+			}
+		}
+	}
+}
+
+var preloadModes = []string{"empty", "some", "all"}
+
 func TestPyramidTraversal(t *testing.T) {
 	run := obs.Start(t, prop)
 	defer run.Done()
@@ -490,22 +510,28 @@ func TestPyramidTraversal(t *testing.T) {
 	rng := run.RandFor("traversal")
 	files := honestFiles(t, rng)
 	n := 0
-	for r := 0; r < run.N(1, 8); r++ {
+	for r := 0; r < run.N(3, 9); r++ {
 		for _, h := range files {
 			for _, p := range pyramids(rng, h) {
 				n++
-				c := run.Begin(fmt.Sprintf("traversal/%d", n), map[string]interface{}{"file": h.name, "class": p.class, "entries": len(p.m), "root": h.root.String()})
+				pre := preloadModes[n%3]
+				c := run.Begin(fmt.Sprintf("traversal/%d", n), map[string]interface{}{"file": h.name, "class": p.class, "entries": len(p.m), "root": h.root.String(), "store_before": pre})
 				if c == nil {
 					continue
 				}
 				st := pbench.NewStore()
+				preload(rng, st, h, pre)
+				run.Stat("pyramids_offered_with_store_"+pre, 1)
 				var err error
 				pi := pbench.Guard(func() { _, _, err = traversal.New(st).GetChunkHashes(context.Background(), h.root, p.m) })
 				if pi != nil {
 					if pi.Harness {
 						t.Fatalf("harness fault: %s at %s", pi.Value, pi.Site)
 					}
-					run.Stat("panics_seen_not_judged_here(C37)/"+pi.Site, 1); if os.Getenv("C06_DEBUG") != "" { fmt.Fprintln(os.Stderr, "PANIC", c.ID(), pi.Value, pi.Stack[:5]) }
+					run.Stat("panics_seen_not_judged_here(C37)/"+pi.Site, 1)
+					if os.Getenv("C06_DEBUG") != "" {
+						fmt.Fprintln(os.Stderr, "PANIC", c.ID(), pi.Value, pi.Stack[:5])
+					}
 				}
 				stored := checkPuts(run, c, "traversal", st, p.class)
 				accepted := pi == nil && err == nil
@@ -520,7 +546,7 @@ func TestPyramidTraversal(t *testing.T) {
 				if n <= 2 {
 					run.Sample(map[string]interface{}{"file": h.name, "class": p.class, "accepted": accepted, "stored": stored})
 				}
-				c.End(fmt.Sprintf("%s|%s|accepted=%v", h.name, p.class, accepted), true)
+				c.End(fmt.Sprintf("%s|%s|pre=%s|accepted=%v", h.name, p.class, pre, accepted), true)
 			}
 		}
 	}
@@ -558,6 +584,7 @@ func TestPyramidChunkinfo(t *testing.T) {
 					}
 					reply = append(reply, pbench.Frame(&cipb.ChunkPyramidResp{Ok: true})...)
 					st := pbench.NewStore()
+					preload(rng, st, h, preloadModes[n%3])
 					str := pbench.NewStreamer(func(_ boson.Address, _, stream string, _ int) ([]byte, error) {
 						if stream == "chunkpyramid" {
 							return reply, nil
@@ -578,7 +605,10 @@ func TestPyramidChunkinfo(t *testing.T) {
 						if pi.Harness {
 							t.Fatalf("harness fault: %s at %s", pi.Value, pi.Site)
 						}
-						run.Stat("panics_seen_not_judged_here(C37)/"+pi.Site, 1); if os.Getenv("C06_DEBUG") != "" { fmt.Fprintln(os.Stderr, "PANIC", c.ID(), pi.Value, pi.Stack[:5]) }
+						run.Stat("panics_seen_not_judged_here(C37)/"+pi.Site, 1)
+						if os.Getenv("C06_DEBUG") != "" {
+							fmt.Fprintln(os.Stderr, "PANIC", c.ID(), pi.Value, pi.Stack[:5])
+						}
 					}
 					stored := checkPuts(run, c, "chunkinfo-pyramid", st, p.class)
 					if stored > 0 {
